@@ -381,15 +381,17 @@ theorem parseEnumFields_good {P : Token → Prop} : ∀ (f : Nat) (fs : List Enu
   | f + 1, fs, ts, h => by
     unfold parseEnumFields
     split
-    · have e1 := eat_good (P := P) (.punct '=') (adv_ok h)
-      cases h1 : eat (.punct '=') (adv ts) with
-      | err p c => exact e1.err_of h1
-      | ok u ts1 =>
-        have k1 := e1.ok_of h1
-        simp only
-        split
-        · exact parseEnumFields_good f _ _ (adv_ok k1)
-        · exact cur_err k1
+    · split
+      · exact cur_err h
+      · have e1 := eat_good (P := P) (.punct '=') (adv_ok h)
+        cases h1 : eat (.punct '=') (adv ts) with
+        | err p c => exact e1.err_of h1
+        | ok u ts1 =>
+          have k1 := e1.ok_of h1
+          simp only
+          split
+          · exact parseEnumFields_good f _ _ (adv_ok k1)
+          · exact cur_err k1
     · exact h
 
 theorem parseEnum_good {P : Token → Prop} {ts : List Token} (σ : Schema) (h : TsOk P ts) :
